@@ -10,10 +10,11 @@
    3. compile_decodes / compile_container: the statements of C02 / C01 for `compile src = Ok (bytes, log)`.
       The only size hypothesis left is that the FILE is shorter than 2^32 bytes (so every chunk length fits). *)
 From Coq Require Import String Ascii.
-From Sakura.Model Require Import Base Cursor Length Event Writer Song Token LoopMachine LexCore RunCore Tie Compile.
+From Sakura.Model Require Import Base Cursor Length Event Writer Song Token LoopMachine LexCore RunCore Tie Compile RunRsv.
+From Sakura.Model Require Reserve.
 From Sakura.Gen Require Import Consts VarRows.
 From Sakura.Spec Require Import SmfSpec TrackSpec.
-From Sakura.Proofs Require Import VlqP WriterP SortP ContainerP BlockP LayoutP LogP.
+From Sakura.Proofs Require Import VlqP WriterP SortP ContainerP ExtP RsvP BlockP LayoutP LogP.
 From Coq Require Import Lia Permutation.
 Open Scope list_scope.
 Open Scope Z_scope.
@@ -223,6 +224,25 @@ Proof.
   rewrite Forall_forall in H1. exact (H1 t0 Hin).
 Qed.
 
+(* ---- reservations: the methods add channel events and rewrite tr_rsv; the on-note lists rewrite velocity etc. ---- *)
+Lemma plain_ev_simple e : plain_ev e -> simple e.
+Proof. intros [_ H]. exact H. Qed.
+Lemma track_inv_ext t t' : trk_ext t t' -> track_inv t -> track_inv t'.
+Proof.
+  intros (E & r & HE & ->) [H1 H2]. split; [|exact H2]. cbn [tr_events tr_set_rsv tr_set_events].
+  apply Forall_app. split; [exact H1|]. eapply Forall_impl; [|exact HE]. intros e He. apply simple_eok, plain_ev_simple, He.
+Qed.
+Lemma track_inv_advance t v tm q : track_inv t -> track_inv (rsv_advance t v tm q).
+Proof.
+  intros [H1 H2]. destruct (rsv_advance_frame t v tm q) as (_ & _ & _ & _ & _ & _ & _ & A & B).
+  split; [rewrite B; exact H1|rewrite A; exact H2].
+Qed.
+Lemma inv_set_rand_seed s v : events_inv s -> events_inv (s_set_rand_seed s v).
+Proof. exact (fun H => H). Qed.
+(* on_rt with a function that is an extension *)
+Lemma track_inv_on_rt t f : ev_ext (to_rtrack t) (f (to_rtrack t)) -> track_inv t -> track_inv (on_rt t f).
+Proof. intros H. apply track_inv_ext, on_rt_ext, H. Qed.
+
 (* ---- the arms of step_song that create events ---- *)
 Lemma emit_note_inv s ev nl lettered slur s' :
   events_inv s -> simple ev -> emit_note s ev nl lettered slur = Ok s' -> events_inv s'.
@@ -249,9 +269,24 @@ Proof.
         -- intros E; injection E as <-. apply inv_upd_cur; [|exact H2].
            intros t Ht. apply check_tie_notes_inv, track_inv_push_tie; assumption.
         -- intros E; injection E as <-. apply inv_upd_cur; [|exact H2].
-           intros t Ht. apply track_inv_push; [apply simple_eok, Hev|exact Ht].
+           intros t Ht. apply track_inv_push; [apply simple_eok, Hev|].
+           apply (track_inv_ext t); [apply write_cc_notes_ext|exact Ht].
   - intros E; injection E as <-. apply inv_upd_cur; [|exact H].
-    intros t Ht. apply (track_inv_push t ev (simple_eok _ Hev) Ht).
+    intros t Ht. apply (track_inv_push _ ev (simple_eok _ Hev)).
+    apply (track_inv_ext t); [apply write_cc_notes_ext|exact Ht].
+Qed.
+
+Lemma exec_note_inv s base flag natural len qlen vel timing oct slur s' :
+  events_inv s -> exec_note s base flag natural len qlen vel timing oct slur = Ok s' -> events_inv s'.
+Proof.
+  intros H. unfold exec_note. destr_pairs. apply emit_note_inv; [|apply simple_note].
+  apply inv_set_rand_seed, inv_upd_cur; [|exact H]. intros t Ht. apply track_inv_advance, Ht.
+Qed.
+Lemma exec_note_n_inv s no len qlen vel timing slur s' :
+  events_inv s -> exec_note_n s no len qlen vel timing slur = Ok s' -> events_inv s'.
+Proof.
+  intros H. unfold exec_note_n. destr_pairs. apply emit_note_inv; [|apply simple_note].
+  apply inv_set_rand_seed, inv_upd_cur; [|exact H]. intros t Ht. apply track_inv_advance, Ht.
 Qed.
 
 Lemma exec_voice_inv s args : events_inv s -> events_inv (exec_voice s args).
@@ -298,6 +333,24 @@ Qed.
 Lemma exec_get_time_inv s args cmd : events_inv s -> events_inv (snd (exec_get_time s args cmd)).
 Proof.
   intros H. unfold exec_get_time. destruct args as [|a [|b [|c l]]]; cbn [snd]; try exact H; apply inv_runtime_error, H.
+Qed.
+
+(* the arms added with the controllers: channel events only *)
+Lemma track_inv_push_events t evs : Forall eok evs -> track_inv t -> track_inv (tr_push_events t evs).
+Proof.
+  intros He [H1 H2]. split; [|exact H2]. cbn [tr_push_events tr_set_events tr_events].
+  apply Forall_app. split; [exact H1|exact He].
+Qed.
+Lemma add_events_inv s f : (forall tp ch, Forall plain_ev (f tp ch)) -> events_inv s -> events_inv (add_events s f).
+Proof.
+  intros Hf H. rewrite add_events_eq. apply inv_upd_cur; [|exact H].
+  intros t Ht. apply track_inv_push_events; [|exact Ht].
+  eapply Forall_impl; [|apply Hf]. intros e He. apply simple_eok, plain_ev_simple, He.
+Qed.
+Lemma exec_rpn_direct_inv s nrpn args : events_inv s -> events_inv (exec_rpn_direct s nrpn args).
+Proof.
+  intros H. destruct (exec_rpn_direct_cases_plain s nrpn args) as [(f & -> & Hf)|[m ->]];
+    [apply add_events_inv; assumption|apply inv_runtime_error, H].
 Qed.
 
 (* ------------------------------------------------------------------------------------------------ *)
@@ -382,6 +435,18 @@ Proof.
   exists s1, (value_body args body), toks, ls'. split; [exact T|]. split; [exact L|exact E].
 Qed.
 
+Lemma exec_play_events_inv ec s args ln s' : ec_keeps events_inv ec ->
+  events_inv s -> exec_play ec s args ln = Ok s' -> events_inv s'.
+Proof.
+  intros Hec H E. apply exec_play_ok in E. destruct E as (Hn & _ & s4 & last & Hp & ->).
+  apply inv_change_cur_track, inv_track_sync. apply inv_upd_cur; [intros t Ht; exact Ht|].
+  change (events_inv (fst (s4, last))).
+  apply (play_parts_inv events_inv ec ln (tr_timepos (cur_track s))) in Hp; [exact Hp| | | |exact H].
+  - intros s0 i _ H0. unfold play_enter. apply inv_upd_cur; [intros t Ht; exact Ht|]. apply inv_change_cur_track, H0.
+  - intros s2 txt toks ls' s3 H2 _ E3. apply Hec in E3; [exact E3|]. apply song_with_ls_inv, H2.
+  - unfold zlen in Hn. lia.
+Qed.
+
 Lemma step_song_events_inv ec : ec_keeps events_inv ec ->
   forall t s s', events_inv s -> step_song ec t s = Ok s' -> events_inv s'.
 Proof.
@@ -393,9 +458,14 @@ Proof.
              | apply exec_voice_inv, H
              | apply inv_track_sync, H
              | apply exec_time_signature_inv, H
-             | apply tempo_change_inv, H ]).
-  - (* TNote *) unfold exec_note. apply emit_note_inv; [exact H|apply simple_note].
-  - (* TNoteN *) unfold exec_note_n. apply emit_note_inv; [exact H|apply simple_note].
+             | apply tempo_change_inv, H
+             | apply add_events_inv; [ext_plain|exact H]
+             | apply exec_rpn_direct_inv, H
+             | apply inv_upd_cur; [intros t0 Ht0; first [destruct w; exact Ht0 | apply track_inv_on_rt; [rsv_ext|exact Ht0]]|exact H]
+             | apply add_events_inv; [ext_plain|];
+               apply inv_upd_cur; [intros t0 Ht0; apply track_inv_on_rt; [rsv_ext|exact Ht0]|exact H] ]).
+  - (* TNote *) apply exec_note_inv, H.
+  - (* TNoteN *) apply exec_note_n_inv, H.
   - (* TVelocity *) destruct (ino >? 0); [discriminate|]. intros E; injection E as <-.
     apply inv_upd_cur; [intros t0 Ht0; exact Ht0|exact H].
   - (* TDiv *)
@@ -419,6 +489,7 @@ Proof.
     intros E. apply step_value_parts in E. destruct E as (s1 & text & toks & ls' & Hs1 & _ & E).
     apply Hec in E; [exact E|]. apply song_with_ls_inv.
     destruct Hs1 as [->|[m ->]]; [exact H|apply inv_add_log, H].
+  - (* TPlay *) intros E. apply (exec_play_events_inv ec s args lineno s' Hec H E).
 Qed.
 
 Theorem exec_f_events_inv steps d toks s s' :
@@ -461,6 +532,46 @@ Proof.
     try (apply tb_read_error_cmd, I); try (eapply read_macro_args_tb; eassumption).
 Qed.
 
+Lemma read_command_cc_tb ls no s ln ot s' ln' ls' :
+  read_command_cc ls no s ln = Ok (ot, s', ln', ls') -> TB ls -> TB ls'.
+Proof.
+  unfold read_command_cc, cc_warn. intros H I. repeat brk H;
+    injection H as <- <- <- <-; try exact I; try (apply tb_add_log, I); eapply read_args_tokens_tb; eassumption.
+Qed.
+Lemma read_cc_tb ls is_c s ln ot s' ln' ls' :
+  read_cc ls is_c s ln = Ok (ot, s', ln', ls') -> TB ls -> TB ls'.
+Proof.
+  unfold read_cc. intros H I. repeat brk H;
+    try (injection H as ->; eapply read_command_cc_tb; eassumption);
+    injection H as <- <- <- <-; try exact I; apply tb_read_error_cmd, I.
+Qed.
+Lemma read_rpn_command_tb ls nrpn msb lsb s ln ot s' ln' ls' :
+  read_rpn_command ls nrpn msb lsb s ln = Ok (ot, s', ln', ls') -> TB ls -> TB ls'.
+Proof.
+  unfold read_rpn_command. intros H I. repeat brk H;
+    injection H as <- <- <- <-; try exact I; eapply read_args_tokens_tb; eassumption.
+Qed.
+Lemma read_play_tb ls s ln ot s' ln' ls' :
+  read_play ls s ln = Ok (ot, s', ln', ls') -> TB ls -> TB ls'.
+Proof.
+  unfold read_play. intros H I. repeat brk H; injection H as <- <- <- <-. eapply read_macro_args_tb; eassumption.
+Qed.
+Lemma read_def_str_tb ls s ln ot s' ln' ls' :
+  read_def_str ls s ln = Ok (ot, s', ln', ls') -> TB ls -> TB ls'.
+Proof.
+  unfold read_def_str. intros H I. repeat brk H;
+    injection H as <- <- <- <-; try exact I; apply tb_add_log, I.
+Qed.
+Lemma read_ext_command_tb ls ttype argt tag1 tag2 s ln ot s' ln' ls' :
+  read_ext_command ls ttype argt tag1 tag2 s ln = Ok (ot, s', ln', ls') -> TB ls -> TB ls'.
+Proof.
+  unfold read_ext_command. intros H I. repeat brk H;
+    try (injection H as ->; first [eapply read_cc_tb; eassumption | eapply read_command_cc_tb; eassumption
+                                  | eapply read_rpn_command_tb; eassumption | eapply read_play_tb; eassumption
+                                  | eapply read_def_str_tb; eassumption]);
+    injection H as <- <- <- <-; try exact I; eapply read_args_tokens_tb; eassumption.
+Qed.
+
 Section LoopTB.
 Variable sublex : lexstate -> list Z -> Z -> res lex_out.
 Hypothesis sub_tb : forall ls s ln toks ls', sublex ls s ln = Ok (toks, ls') -> TB ls -> TB ls'.
@@ -479,6 +590,8 @@ Proof.
   try (apply tb_lex_error, I); try (apply tb_add_log, I);
   try (eapply check_variables_tb; eassumption);
   try (eapply read_args_tokens_tb; eassumption);
+  try (eapply read_cc_tb; eassumption);
+  try (eapply read_ext_command_tb; eassumption);
   try (eapply sub_tb; eassumption);
   try (apply tb_clamp).
 Qed.
@@ -487,7 +600,7 @@ End LoopTB.
 Lemma lex_f_tb : forall f ls src ln toks ls', lex_f f ls src ln = Ok (toks, ls') -> TB ls -> TB ls'.
 Proof.
   induction f as [|f IH]; intros ls src ln toks ls' H I; [discriminate H|].
-  rewrite lex_f_unfold in H. unfold LOOP in H. eapply LOOPG_tb; [exact IH|exact H|exact I].
+  rewrite lex_f_unfold in H. destruct (lex_pre src); [discriminate H|]. unfold LOOP in H. eapply LOOPG_tb; [exact IH|exact H|exact I].
 Qed.
 Theorem lex_tb ls src ln toks ls' : lex ls src ln = Ok (toks, ls') -> TB ls -> TB ls'.
 Proof. unfold lex. apply lex_f_tb. Qed.
@@ -506,7 +619,7 @@ Ltac dsig_tac :=
   cbn [s_tracks s_timebase upd_cur track_sync s_set_tracks s_set_cur s_set_key_flag s_set_key_shift
        s_set_use_key_shift s_set_v_add s_set_q_add s_set_harmony_flag s_set_harmony_time s_set_harmony_events
        s_set_octave_once s_set_break_flag s_set_tempo s_set_timesig_frac s_set_timesig_deno s_set_measure_shift
-       s_set_play_from s_set_lineno s_set_logs s_set_vars s_set_rhythm s_set_harmony s_set_time s_set_adds];
+       s_set_play_from s_set_lineno s_set_logs s_set_vars s_set_rhythm s_set_rand_seed s_set_harmony s_set_time s_set_adds];
   rewrite ?upd_nth_length, ?map_length; reflexivity.
 
 Lemma dsig_upd_cur s f : dsig (upd_cur s f) = dsig s.
@@ -516,6 +629,12 @@ Proof. unfold add_log. destruct (_ <=? _); reflexivity. Qed.
 Lemma dsig_runtime_error s m : dsig (runtime_error s m) = dsig s.
 Proof. apply dsig_add_log. Qed.
 
+Lemma dsig_add_events s f : dsig (add_events s f) = dsig s.
+Proof. apply dsig_upd_cur. Qed.
+Lemma dsig_exec_rpn_direct s nrpn args : dsig (exec_rpn_direct s nrpn args) = dsig s.
+Proof.
+  destruct (exec_rpn_direct_cases s nrpn args) as [[f ->]|[m ->]]; [apply dsig_add_events|apply dsig_runtime_error].
+Qed.
 Lemma dsig_emit_note s ev nl lettered slur s' : emit_note s ev nl lettered slur = Ok s' -> dsig s' = dsig s.
 Proof.
   unfold emit_note.
@@ -523,6 +642,18 @@ Proof.
     intros E; injection E as <-; dsig_tac.
 Qed.
 
+Lemma dsig_set_rand_seed s v : dsig (s_set_rand_seed s v) = dsig s.
+Proof. reflexivity. Qed.
+Lemma dsig_exec_note s base flag natural len qlen vel timing oct slur s' :
+  exec_note s base flag natural len qlen vel timing oct slur = Ok s' -> dsig s' = dsig s.
+Proof.
+  unfold exec_note. destr_pairs. intros E. apply dsig_emit_note in E. rewrite E, dsig_set_rand_seed. apply dsig_upd_cur.
+Qed.
+Lemma dsig_exec_note_n s no len qlen vel timing slur s' :
+  exec_note_n s no len qlen vel timing slur = Ok s' -> dsig s' = dsig s.
+Proof.
+  unfold exec_note_n. destr_pairs. intros E. apply dsig_emit_note in E. rewrite E, dsig_set_rand_seed. apply dsig_upd_cur.
+Qed.
 Lemma dsig_exec_voice s args : dsig (exec_voice s args) = dsig s.
 Proof. unfold exec_voice. destruct args as [|a [|b l]]; apply dsig_upd_cur. Qed.
 Lemma dsig_harmony_end s len q vel : dsig (exec_harmony_end s len q vel) = dsig s.
@@ -561,15 +692,33 @@ Proof. intros Ht [H1 _]. split; [exact H1|exact Ht]. Qed.
 Lemma tb_ls_of_song s : dims_inv s -> TB (ls_of_song s).
 Proof. intros [_ H]. exact H. Qed.
 
+Lemma exec_play_dims ec s args ln s' : ec_keeps dims_inv ec ->
+  dims_inv s -> exec_play ec s args ln = Ok s' -> dims_inv s'.
+Proof.
+  intros Hec H E. apply exec_play_ok in E. destruct E as (Hn & Hcur & s4 & last & Hp & ->).
+  apply dims_change_cur_track; [exact Hcur|].
+  assert (H4 : dims_inv s4).
+  { change (dims_inv (fst (s4, last))).
+    apply (play_parts_inv dims_inv ec ln (tr_timepos (cur_track s))) in Hp; [exact Hp| | | |exact H].
+    - intros s0 i Hi H0. unfold play_enter. apply (dims_of_dsig (change_cur_track s0 i) _ (dsig_upd_cur _ _)).
+      apply dims_change_cur_track; assumption.
+    - intros s2 txt toks ls' s3 H2 L E3. apply Hec in E3; [exact E3|]. apply dims_song_with_ls; [|exact H2].
+      apply (lex_tb _ _ _ _ _ L), tb_ls_of_song, H2.
+    - unfold zlen in Hn. lia. }
+  apply (dims_of_dsig s4); [|exact H4].
+  unfold dsig, track_sync, upd_cur. cbn [s_tracks s_timebase s_set_tracks]. rewrite map_length, upd_nth_length. reflexivity.
+Qed.
+
 Lemma step_song_dims ec : ec_keeps dims_inv ec ->
   forall t s s', dims_inv s -> step_song ec t s = Ok s' -> dims_inv s'.
 Proof.
   intros Hec t s s' H. destruct t; cbn [step_song];
   try (intros E; injection E as <-; apply (dims_of_dsig s); [|exact H];
        first [ reflexivity | dsig_tac | apply dsig_harmony_end | apply dsig_exec_voice
-             | apply dsig_time_signature | apply dsig_tempo_change ]).
-  - (* TNote *) unfold exec_note. intros E. apply dsig_emit_note in E. apply (dims_of_dsig s _ E H).
-  - (* TRest *) intros E; injection E as <-. apply (dims_of_dsig s _ (dsig_upd_cur s _) H).
+             | apply dsig_time_signature | apply dsig_tempo_change | apply dsig_add_events | apply dsig_exec_rpn_direct
+             | (rewrite dsig_add_events; apply dsig_upd_cur) | apply dsig_upd_cur ]).
+  - (* TNote *) intros E. apply dsig_exec_note in E. apply (dims_of_dsig s _ E H).
+  - (* TNoteN *) intros E. apply dsig_exec_note_n in E. apply (dims_of_dsig s _ E H).
   - (* TVelocity *) destruct (ino >? 0); [discriminate|]. intros E; injection E as <-.
     apply (dims_of_dsig s _ (dsig_upd_cur s _) H).
   - (* TDiv *)
@@ -596,6 +745,7 @@ Proof.
     { destruct Hs1 as [->|[m ->]]; [exact H|apply (dims_of_dsig s _ (dsig_add_log s m) H)]. }
     apply Hec in E; [exact E|]. apply dims_song_with_ls; [|exact H1].
     apply (lex_tb _ _ _ _ _ L), tb_ls_of_song, H1.
+  - (* TPlay *) intros E. apply (exec_play_dims ec s args lineno s' Hec H E).
 Qed.
 
 Theorem exec_f_dims steps d toks s s' :
